@@ -9,13 +9,15 @@ import subprocess
 import sys
 
 done_marker = 'meta.json'
+ROOT = os.environ.get('SEED_ROOT', '/tmp/mut')
+SUFFIX = os.environ.get('SEED_SUFFIX', '')
 only = sys.argv[1:] or None
-for seed in sorted(glob.glob('/tmp/mut/C*/_seed/*')):
+for seed in sorted(glob.glob(ROOT + '/C*/_seed/[AB]')):
     prop = seed.split('/')[3]
     x = os.path.basename(seed)
     if only and prop not in only:
         continue
-    sid = '%s-%s' % (prop, x)
+    sid = '%s-%s%s' % (prop, x, SUFFIX)
     dst = os.path.join('/verif/seeded', sid)
     if os.path.exists(os.path.join(dst, done_marker)):
         continue
